@@ -12,7 +12,8 @@ Blocking operations get an enabledness rule so the controller never releases a t
     line fires a second 'line' event on block exit, normal or exceptional, which is always enabled)
   * `<queue expr>.get()` lines in a target file          -> QueueGetLines (enabled iff not empty)
   * `Thread.join` on a scheduled thread (any caller)     -> patched while a run is active: a pseudo
-    gate ("<join>", 0) enabled iff the target thread has finished
+    gate ("<join>", 0) enabled iff the target thread has finished; a join with a time limit is always enabled and,
+    when the schedule lets the caller go on before the target has finished, has timed out
   * threads started by scheduled threads (`Thread.start`) become scheduled threads themselves
     (ids n, n+1, ... in spawn order); they are forced to be daemons.
 `Scheduler.pseudo_gate(label, enabled)` lets harness code (stubs, workers) add explicit gates.
@@ -350,7 +351,15 @@ def _patched_join(thread, timeout=None):
         me = s._tid_of_current()
         target = s._tid_of_thread(thread)
         if me is not None and target is not None and not s._free:
-            s.pseudo_gate("<join>", lambda: s._state.get(target) == "done")
+            if timeout is not None:
+                # a join with a time limit may give up at any moment (the other thread can be arbitrarily slow): the gate is
+                # always enabled, the schedule decides when the caller goes on, and if the target has not finished by then
+                # the wait has timed out
+                s.pseudo_gate("<join>", lambda: True)
+                if s._state.get(target) != "done":
+                    return None
+            else:
+                s.pseudo_gate("<join>", lambda: s._state.get(target) == "done")
     return _ORIG_JOIN(thread, timeout)
 
 
